@@ -582,6 +582,31 @@ class G:
             self.emit("opt %s" % z); self.emit("size %s" % z)
         self.count("alg:fixed-combs")
 
+    def alg_inplace_key_grid(self):
+        """EXHAUSTIVE small key layouts for the in-place drivers (their merge loops over the two key arrays, the bulk tails, dropped
+        empty results): every key of 0..3 is absent / receiver-only / argument-only / in both with EQUAL chunks (xor and andnot cancel
+        them, and keeps them) / in both with different chunks — 5^4 layouts for `ixor` and `ior`, 5^3 for `iand` and `iandnot`"""
+        import itertools
+        for ops, nk in ((("ixor", "ior"), 4), (("iand", "iandnot"), 3)):
+            for lay in itertools.product(range(5), repeat=nk):
+                rs, as_ = [], []
+                for k, c in enumerate(lay):
+                    kk = 7 + 2 * k
+                    if c in (1, 3, 4):
+                        rs.append("%d:A:1,2" % kk)
+                    if c == 2:
+                        as_.append("%d:A:2,3" % kk)
+                    elif c == 3:
+                        as_.append("%d:A:1,2" % kk)
+                    elif c == 4:
+                        as_.append("%d:A:2,3" % kk)
+                for op in ops:
+                    x, y = self.fresh("kg"), self.fresh("kg")
+                    self.emit(("mkrepr %s cow=0;%s" % (x, ";".join(rs))).rstrip(";") if rs else "new %s" % x)
+                    self.emit(("mkrepr %s cow=0;%s" % (y, ";".join(as_))).rstrip(";") if as_ else "new %s" % y)
+                    self.emit("%s %s %s" % (op, x, y))
+            self.count("alg:inplace-key-grid:%d" % nk)
+
     def suite_alg(self, npairs):
         """C01: every binary op, both forms, shortcuts, self-ops; operands unchanged"""
         r = self.r
@@ -602,6 +627,7 @@ class G:
             self.emit("isect %s %s" % (e2, x))
             self.emit("isect %s %s" % (e0, e1))
         self.alg_fixed_halves_and_combs()
+        self.alg_inplace_key_grid()
         # operands that TOUCH: the smallest value of one chunk is the largest value of the other's; the receiver grown by single
         # insertions (its slice has spare capacity), a clone of it (exact capacity) and an edited one
         # in-place Xor whose merge first meets an argument-only key BEFORE a receiver key (or a cancelling pair) and LATER, at a higher
@@ -958,6 +984,34 @@ class G:
             self.emit("off %s %s %d" % (self.fresh("sf"), x, d))
         self.emit("dig %s" % x)
         self.count("xform:off32-partly-out-of-range")
+        # AddOffset results are bitmaps of their own: a chunk whose shifted values straddle a chunk border is split into two containers;
+        # the result is then grown in the LOW part (a value above its maximum, a range, a union) and the HIGH part is looked at again
+        for kind, build in (("A", ["of %s 100 200 60000 61000 65535"]), ("A2", ["of %s 3 60000 61000", "addmany %s 131072 262149"]),
+                            ("R", ["new %s", "addr %s 50000 65000", "addr %s 100 120", "opt %s"]),
+                            ("B", ["new %s", "addstride %s 1 7 9000"])):
+            x = self.fresh("ao")
+            for l in build:
+                self.emit(l % x)
+            for d in (10000, 5537, -50001, 65535, 70000):
+                for grow in ("add", "addr", "ior", "addmany"):
+                    y = self.fresh("ao")
+                    self.emit("off %s %s %d" % (y, x, d))
+                    base = ((100 + d) // CH) * CH if d > 0 else 0
+                    v = base + 20000 + (d % 7)
+                    if grow == "add":
+                        self.emit("add %s %d" % (y, v)); self.emit("add %s %d" % (y, v + 30000))
+                    elif grow == "addr":
+                        self.emit("addr %s %d %d" % (y, v, v + 3))
+                    elif grow == "addmany":
+                        self.emit("addmany %s %d %d %d" % (y, v, v + 1, v + 40000))
+                    else:
+                        z = self.fresh("ao")
+                        self.emit("of %s %d %d" % (z, v, v + 9))
+                        self.emit("ior %s %s" % (y, z))
+                    self.emit("toarr %s" % y) if kind != "B" else self.emit("dig %s" % y)
+                    self.emit("wf %s" % y)
+                self.emit("dig %s" % x)
+            self.count("xform:offset-then-grow:" + kind)
         for vals in ([5, 3 * CH + 7, 10 * CH + 3], []):
             x = self.fresh("sf")
             self.emit("new %s" % x)
